@@ -6,6 +6,7 @@ import (
 	"errors"
 	"fmt"
 	"math"
+	"sort"
 	"time"
 
 	"0chain.net/core/config"
@@ -614,8 +615,15 @@ func (c *Chain) updateState(ctx context.Context,
 		ue[u.UserID] = u
 	}
 
-	for _, e := range ue {
-		c.emitUserEvent(sctx, e)
+	// emit the user events in a fixed order: the event list of a block must be the same
+	// on every node and map iteration order is not
+	userIDs := make([]string, 0, len(ue))
+	for id := range ue {
+		userIDs = append(userIDs, id)
+	}
+	sort.Strings(userIDs)
+	for _, id := range userIDs {
+		c.emitUserEvent(sctx, ue[id])
 	}
 
 	// commit transaction
